@@ -32,7 +32,7 @@ def gen_records(rng: random.Random) -> list[dict]:
     recs = []
     # (offsets whose three bytes are letters of the header or of the end marker: 'PAT', 'ATC', 'TCH', 'HHH', 'EOE', an expanded ROM's 5th MiB)
     pos = rng.choice([0, 1, 0x200, 0x7FFF, 0x10000, 0x123456, rng.randrange(1 << 22), rng.choice([0x504154, 0x415443, 0x544348, 0x484848, 0x454F45, 0x500000, 0x410000, 0x430043, 0x480001])])
-    for _ in range(rng.choice([0, 1, 1, 2, 3, 5, 9]) if rng.random() < 0.93 else rng.choice([65, 257, 600])):
+    for _ in range(rng.choice([0, 1, 1, 2, 3, 5, 9]) if rng.random() < 0.93 else rng.choice([65, 257, 600, 1100, 3000])):
         c = rng.random()
         if c < 0.3:
             off = pos                                   # adjacent to the previous record
